@@ -67,12 +67,13 @@ def run(c, prog, ctx):
     adds = dos(NL, r"AddAssign>::add_assign$")
     POP = "std::vec::Vec::pop(%s)" % OUTSEC
     IDX = "<std::vec::Vec<T, A> as std::ops::Index<I>>::index"
-    LASTX = "%s::last(arg3, %s.0, %s.1, %s.0, %s(%s, std::ops::RangeTo::RangeTo{std::vec::Vec::len(%s)}))" % (VBF, POP, POP, CHK, IDX, OUTSEC, OUTSEC)
+    FULL = "%s(%s, std::ops::RangeTo::RangeTo{std::vec::Vec::len(%s)})" % (IDX, OUTSEC, OUTSEC)   # &v[..v.len()] is v
+    LASTX = "%s::last(arg3, %s.0, %s.1, %s.0, %s)" % (VBF, POP, POP, CHK, OUTSEC)
     good = (len(pushes_scal) == 1 and len(adds) == 1 and not in_loop(pushes_scal[0][0]) and not in_loop(adds[0][0]))
     det = ""
     if good:
-        a = [sh(x) for x in adds[0][1][2]]
-        p = [sh(x) for x in pushes_scal[0][1][2]]
+        a = [sh(x).replace(FULL, OUTSEC) for x in adds[0][1][2]]
+        p = [sh(x).replace(FULL, OUTSEC) for x in pushes_scal[0][1][2]]
         det = "add_assign(%s); push(%s)" % (a, p)
         good = (a == [LASTX, "<%s as std::ops::Neg>::neg(%s.2)" % (VBF, POP)] and p == [SCAL, "%s::into_inner(%s)" % (VBF, LASTX)]
                 and NL.flat.index(adds[0]) < NL.flat.index(pushes_scal[0]))
@@ -102,16 +103,24 @@ def run(c, prog, ctx):
     # ------------------------------------------------------------- R2 consume
     LASTOUT = "%s(arg1.outputs, std::vec::Vec::pop(%s.1))" % (IDX, CHK)
     # the input list handed to last(): a (re)assignable variable in today's code (reset to empty in the several-outputs path, R3)
-    INP = None
+    from ..mir import walk_term
+    lasts = {}
     for cx, s in BL.flat:
-        for t in ([s[2]] if s[0] in ("set", "store") else list(s[2]) if s[0] == "do" else []):
-            m = re.search(r"ValueBlindingFactor::last\(arg3, .*?\.amount, confidential::AssetBlindingFactor::new\(arg2\), (.*?), std::vec::Vec::new\(\)\)", sh(t))
-            if m:
-                INP = m.group(1)
-    if INP is None:
-        raise CannotDecide("blind_last: call to ValueBlindingFactor::last not found")
+        for t in ([s[2]] if s[0] in ("set", "store") else list(s[2]) if s[0] == "do" else [s[1]] if s[0] == "ret" else []):
+            for x in walk_term(t):
+                if isinstance(x, tuple) and x and x[0] == "call" and x[1].endswith("ValueBlindingFactor::last") and len(x[2]) == 5:
+                    lasts[sh(x)] = x
+    if len(lasts) != 1:
+        raise CannotDecide("blind_last: expected one distinct call to ValueBlindingFactor::last, found %d" % len(lasts))
+    FINAL, LT = list(lasts.items())[0]
+    la = [sh(a) for a in LT[2]]
+    INP = la[3]
     ABF = "confidential::AssetBlindingFactor::new(arg2)"
-    FINAL = "%s::last(arg3, %s.amount, %s, %s, std::vec::Vec::new())" % (VBF, LASTOUT, ABF, INP)
+    # the explicit outputs: a vector filled by the loop checked below (R2.explicit-outputs), or the same thing as an iterator chain
+    EXPL = la[4]
+    chain = re.match(r"^std::iter::Iterator::collect\(std::iter::Iterator::map\(std::iter::Iterator::filter\((?:enum\()?arg1\.outputs\)?, closure:(\S+?)\{\}\), closure:(\S+?)\{\}\)\)$", EXPL)
+    c.inst("R2.last-arguments", "last(secp, amount of the last output, fresh abf, own inputs, explicit outputs)",
+           la[:3] == ["arg3", "%s.amount" % LASTOUT, ABF] and (EXPL == "std::vec::Vec::new()" or chain is not None), "arguments %s" % [x[:160] for x in la], BL.f.where(), BL.f.path)
     adds = dos(BL, r"AddAssign>::add_assign$")
     good = bool(adds)
     dets = set()
@@ -146,10 +155,20 @@ def run(c, prog, ctx):
     errs = [sh(s[1]) for cx, s in BL.flat if s[0] == "ret" and [l for l in labels(cx) if l[0] == EMPTY] == [(EMPTY, "otherwise")]]
     c.inst("R2.needs-an-output", "no output to blind => AtleastOneOutputBlind", errs == ["std::result::Result::Err{pset::error::PsetBlindError::AtleastOneOutputBlind{}}"], "returns %s" % errs, BL.f.where(), BL.f.path)
     exp = [(labels(cx)[-2:], [sh(a) for a in s[2]][1]) for cx, s in dos(BL, r"Vec::<T, A>::push$") if "enext(arg1.outputs)" in "".join(in_loop(cx))]
-    want = ([("std::option::Option::is_none(elem(arg1.outputs).blinding_key)", "otherwise"), ("discr(elem(arg1.outputs).amount)", "=0")] if False else None)
-    good = bool(exp) and all(lab[0] == ("std::option::Option::is_none(elem(arg1.outputs).blinding_key)", "otherwise")
-                             and v == "tuple{elem(arg1.outputs).amount, confidential::AssetBlindingFactor::zero(), %s::zero()}" % VBF for lab, v in exp)
-    c.inst("R2.explicit-outputs", "only outputs without a blinding key enter as explicit (amount, 0, 0)", good, "pushes %s" % exp[:2], BL.f.where(), BL.f.path)
+    ZT = "confidential::AssetBlindingFactor::zero(), %s::zero()" % VBF
+    if chain is not None:
+        F1 = Fn(prog, chain.group(1))
+        F2 = Fn(prog, chain.group(2))
+        r1 = [sh(s_[1]) for cx, s_ in F1.flat if s_[0] == "ret"]
+        r2 = [sh(s_[1]) for cx, s_ in F2.flat if s_[0] == "ret" and "Ok{" in sh(s_[1])]
+        good = (len(r1) == 1 and re.match(r"^std::option::Option::is_none\(arg2(\.1)?\.blinding_key\)$", r1[0]) is not None
+                and len(r2) == 1 and re.match(r"^std::result::Result::Ok\{tuple\{(ok\()?.*amount.*, %s\}\}$" % re.escape(ZT), r2[0]) is not None)
+        det = "filter %s; map %s" % (r1, r2)
+    else:
+        good = bool(exp) and all(lab[0] == ("std::option::Option::is_none(elem(arg1.outputs).blinding_key)", "otherwise")
+                                 and v == "tuple{elem(arg1.outputs).amount, %s}" % ZT for lab, v in exp)
+        det = "pushes %s" % exp[:2]
+    c.inst("R2.explicit-outputs", "only outputs without a blinding key enter as explicit (amount, 0, 0)", good, det, BL.f.where(), BL.f.path)
     # ------------------------------------------------------------- R3 nested call
     nested = dos(BL, r"PartiallySignedTransaction::blind_non_last$")
     stores = [(cx, s) for cx, s in BL.flat if s[0] == "store" and sh(s[1]).endswith(".blinder_index")]
@@ -195,6 +214,8 @@ def run(c, prog, ctx):
     BI = "(some(%s.blinder_index) as usize)" % OUT
     atoms = {"std::option::Option::is_none(elem(arg1.outputs).blinding_key)": "nokey", "discr(%s.blinder_index)" % OUT: "hasidx",
              "(%s Ge std::vec::Vec::len(arg1.inputs))" % BI: "oob", "std::option::Option::is_none(std::collections::HashMap::get(arg2, %s))" % BI: "nosecret"}
+    # `contains_key(k)` is `!get(k).is_none()`
+    atoms["std::collections::HashMap::contains_key(arg2, %s)" % BI] = "!nosecret"
     loops = [s for s in BC.L if s[0] == "while" and sh(s[1]) == "discr(enext(arg1.outputs))"]
     if len(loops) != 1:
         raise CannotDecide("blind_checks: output loop not found")
@@ -209,7 +230,7 @@ def run(c, prog, ctx):
                 a = atoms.get(sh(s[1]))
                 if a is None:
                     return "?" + sh(s[1])
-                v = val[a]
+                v = (1 - val[a[1:]]) if a.startswith("!") else val[a]
                 arm = "=%d" % v if "=%d" % v in s[2] else "otherwise"
                 if arm not in s[2]:
                     continue
